@@ -29,14 +29,30 @@ EXPLANATION = ("Deductive part: (b) GcodeParser.parse, executed symbolically fro
                "trailing blanks, comment, eol) re-assemble to exactly the matched text, fullText is the consumed slice of the source, "
                "and a parse that does not start at the end of the text consumes at least one character; (a) the line pattern, translated mechanically from the pattern text in the real source to a z3 "
                "regular expression, matches at every offset of every text (regex universality query) and matches the empty string only "
-               "at the end of the text (progress), so parseLines consumes any input completely. Bounded part (labelled bounded, not "
+               "at the end of the text (progress), so parseLines consumes any input completely; (d, checksum half) computeChecksum is the left fold of ^ over the bytes of the text "
+               "starting from 0 and lies in 0..255, for texts of any length (loop invariant over the symbolic byte sequence; the bytes "
+               "and int ^ are assumed builtin contracts), and validate() raises ValueError exactly when one of line number / checksum "
+               "is missing or the checksum differs from computeChecksum(leading blanks + text) and otherwise returns None changing "
+               "nothing (against computeChecksum's contract, not its body). Bounded part (labelled bounded, not "
                "counted under obligations): losslessness of fullText, stability of commandString under re-parsing and checksum "
                "validation are checked exhaustively on all strings up to a length bound over one representative per character class "
                "of the pattern plus all sequences of up to three template lines -- they depend on which derivation the backtracking "
                "engine picks, which a contract on the pattern cannot express.")
-TECHNIQUE = "contract on parse() over the structural contract of the real pattern (z3 strings, cvc5 --strings-exp as second back end) + regex-language lemmas + bounded exhaustive round-trip check of the real parser"
-EXTRA_ASSUMPTIONS = ["the digit class is ASCII 0-9 in the regex translation and in the bounded alphabets"]
-BREAKERS = [{'desc': "catch-all alternative no longer accepts '*'",
+TECHNIQUE = "contracts on parse() (over the structural contract of the real pattern; z3 strings, cvc5 --strings-exp as second back end), computeChecksum (loop invariant) and validate() (raises-iff) + regex-language lemmas + bounded exhaustive round-trip check of the real parser"
+EXTRA_ASSUMPTIONS = ["the digit class is ASCII 0-9 in the regex translation and in the bounded alphabets",
+                     "that the RENDERED line (stringify with line number and checksum) parses back to fields validate() accepts is the bounded "
+                     "round trip; the deductive part covers what the checksum is and when validate() raises"]
+BREAKERS = [{'desc': 'checksum starts from 1',
+  'functions': ['GcodeParser.GcodeParser.computeChecksum'],
+  'module': 'GcodeParser',
+  'new': '        checksum = 1\n        for byte',
+  'old': '        checksum = 0\n        for byte'},
+ {'desc': 'validate accepts a checksum without a line number',
+  'functions': ['GcodeParser.GcodeParser.validate'],
+  'module': 'GcodeParser',
+  'new': '        if (self._checksum is None) and (self.lineNumber is not None):',
+  'old': '        if (self._checksum is not None) ^ (self.lineNumber is not None):'},
+ {'desc': "catch-all alternative no longer accepts '*'",
   'functions': [],
   'lemmas': True,
   'module': 'GcodeParser',
